@@ -882,6 +882,9 @@ func checkRoot(vd *refval.Validator, name string, schema M) {
 			if nilNamedCollection(v) {
 				attrs["nil_named_collection"] = "true"
 			}
+			for _, trait := range vd.Traits(schema) {
+				attrs[trait] = "true"
+			}
 			for k, x := range extra {
 				attrs[k] = x
 			}
@@ -941,6 +944,9 @@ func checkRoot(vd *refval.Validator, name string, schema M) {
 			if !out[0].IsNil() {
 				if strings.Contains(fmt.Sprint(out[0].Interface()), "object properties number") {
 					extra["cause"] = "property-count-enforced-by-decoder-only"
+				}
+				if strings.Contains(fmt.Sprint(out[0].Interface()), "unable to detect sum type variant") {
+					extra["refusal"] = "no-member-to-detect-the-variant-by"
 				}
 				report("own-encoding-is-refused-by-the-decoder", string(data), "", fmt.Sprint(out[0].Interface()), extra)
 				return
@@ -1038,7 +1044,11 @@ func checkRoot(vd *refval.Validator, name string, schema M) {
 			}
 		}()
 		if derr != nil {
-			drv.Violation(map[string]string{"class": "valid-document-refused-by-decode-or-validate"}, len(inst), kase{name, sj, "json-first", inst, "", derr.Error()})
+			attrs := map[string]string{"class": "valid-document-refused-by-decode-or-validate"}
+			if strings.Contains(derr.Error(), "unable to detect sum type variant") {
+				attrs["refusal"] = "no-member-to-detect-the-variant-by"
+			}
+			drv.Violation(attrs, len(inst), kase{name, sj, "json-first", inst, "", derr.Error()})
 			continue
 		}
 		var e jx.Encoder
